@@ -359,7 +359,7 @@ def load_known():
 
 
 def write_replay(ctx, payload):
-    d = os.path.join(VERIF, "replays", ctx.pid)
+    d = os.path.join(os.environ.get("VERIF_REPLAYS_DIR") or os.path.join(VERIF, "replays"), ctx.pid)
     os.makedirs(d, exist_ok=True)
     blob = json.dumps(payload, indent=1, sort_keys=True)
     h = hashlib.sha1(blob.encode()).hexdigest()[:12]
@@ -431,8 +431,9 @@ def finish(ctx, level="proof", checker_cmd="", extra_assumptions=()):
         "wall_s": round(time.time() - ctx.t0, 2),
         "violations": len(ctx.violations),
     }
-    os.makedirs(os.path.join(VERIF, "evidence"), exist_ok=True)
-    with open(os.path.join(VERIF, "evidence", ctx.pid + ".json"), "w") as f:
+    evdir = os.environ.get("VERIF_EVIDENCE_DIR") or os.path.join(VERIF, "evidence")
+    os.makedirs(evdir, exist_ok=True)
+    with open(os.path.join(evdir, ctx.pid + ".json"), "w") as f:
         json.dump(ev, f, indent=1)
     ctx.cleanup()
     ok = not ctx.violations
